@@ -42,6 +42,13 @@ def bad_values(o, R):
         out += [("huge", "99999999999999999999"), ("float", "1.5"), ("word", "banana"), ("bool-word", "true"), ("iarf-word", "force"),
                 ("digits-garbage", "4x"), ("dangling-ref", "no_such_option"), ("ref-other-type", iarf_opt if o.name != iarf_opt else "sp_assign"),
                 ("ref-bool", bool_opt), ("neg-dangling-ref", "-no_such_option")]
+        # references whose VALUE is outside the range (prelude sets the referenced option): plain and negated
+        if o.name != "code_width" and o.maxv is not None and o.maxv < 10000:
+            out.append(("ref-value-above-max", "code_width", "code_width = 10000"))
+        if o.name != "indent_columns" and o.minv is not None and o.minv > -8:
+            out.append(("negated-ref-value-below-min", "-indent_columns", "indent_columns = 8"))
+        if o.name != "indent_columns" and o.maxv is not None and o.maxv < 8:
+            out.append(("ref-value-above-small-max", "indent_columns", "indent_columns = 8"))
     elif o.type == "bool":
         out += [("number", "7"), ("word", "banana"), ("iarf-word", "force"), ("ref-other-type", num_opt), ("not-dangling-ref", "!no_such_option"),
                 ("ref-iarf", iarf_opt), ("dangling-ref", "no_such_option")]
@@ -94,7 +101,7 @@ def option_job(name):
             res["viol"].append(({"clause": "base-config-not-loaded", "opt": name, "type": o.type}, {"config.cfg": line1, "stderr": rb.err[-1500:]}))
             return res
         fb = run.run_argv([build.binary("asan"), "-c", base, "-l", "C", "-q"], stdin=SRC, env=ENV, cwd=d); res["runs"] += 1
-        lines = [(c, "%s = %s" % (name, v), name) for c, v in bad_values(o, R)]
+        lines = [(bv[0], "%s = %s" % (name, bv[1]), name) + tuple(bv[2:3]) for bv in bad_values(o, R)]
         typo = name[:-1] + ("x" if name[-1] != "x" else "y")
         lines += [("unknown-name", "%s = %s" % (typo, v1), typo), ("unknown-name-prefix", "%s_ = %s" % (name, v1), name + "_"),
                   ("name-only", name, name), ("empty-value", name + " =", name)]
@@ -102,15 +109,22 @@ def option_job(name):
             lines.append(("empty-quoted", name + ' = ""', name))
         nodiag = [("unterminated-quote", '%s = "%s' % (name, v1)), ("long-value", "%s = %s" % (name, "9" * 10000 if o.type != "string" else "z" * 10000)),
                   ("nonascii-value", "%s = \xe9\xff" % name), ("nonascii-name", "%s\xe9 = %s" % (name, v1)), ("nul-in-line", "%s = \x00%s" % (name, v1))]
-        for cls, bad, named in lines + [(c, b, None) for c, b in nodiag]:
+        for item in lines + [(c, b, None) for c, b in nodiag]:
+            cls, bad, named = item[:3]
+            prelude = item[3] + "\n" if len(item) > 3 else ""
             if o.type == "string" and cls in ("long-value", "nonascii-value", "nul-in-line", "unterminated-quote"):
                 continue    # any text is a valid string value
             res["classes"] += 1
             p = os.path.join(d, "bad.cfg")
-            text = line1 + bad + "\n"
+            text = prelude + line1 + bad + "\n"
+            badline = "bad.cfg:%d" % (3 if prelude else 2)
             open(p, "wb").write(text.encode("latin-1"))
             r = dump_of(p, d); res["runs"] += 1
-            files = {"config.cfg": text.encode("latin-1"), "base.cfg": line1, "stderr": r.err[-3000:], "class": cls}
+            files = {"config.cfg": text.encode("latin-1"), "base.cfg": prelude + line1, "stderr": r.err[-3000:], "class": cls}
+            rb_here = rb
+            if prelude:
+                pb = os.path.join(d, "base2.cfg"); open(pb, "w").write(prelude + line1)
+                rb_here = dump_of(pb, d); res["runs"] += 1
             w0 = {"opt": name, "type": o.type, "class": cls}
             c = crashy(r)
             if c:
@@ -118,15 +132,15 @@ def option_job(name):
                 continue
             err = r.err.decode("latin-1")
             if named is not None:
-                hit = [l for l in err.splitlines() if "bad.cfg:2" in l]
+                hit = [l for l in err.splitlines() if badline in l]
                 if not hit:
                     res["viol"].append((dict(w0, clause="no-diagnostic-naming-file-and-line"), files))
                 elif not any(named in l for l in hit):
                     res["viol"].append((dict(w0, clause="diagnostic-does-not-name-option"), files))
                 else:
                     res["nontrivial"] += 1
-            if r.rc == 0 and r.out != rb.out:
-                a, b = rb.out.decode("latin-1").splitlines(), r.out.decode("latin-1").splitlines()
+            if r.rc == 0 and r.out != rb_here.out:
+                a, b = rb_here.out.decode("latin-1").splitlines(), r.out.decode("latin-1").splitlines()
                 diff = [(x, y) for x, y in zip(a, b) if x != y][:3]
                 other = [y for x, y in diff if not y.startswith(name + " ")]
                 files["dump-diff"] = repr(diff)
@@ -342,6 +356,7 @@ def replay(path):
     bad = bool(c)
     if not bad and os.path.exists(os.path.join(path, "base.cfg")):
         rb = run.run_argv([build.binary("asan"), "-c", os.path.join(path, "base.cfg"), "--update-config"], env=ENV, cwd=path, timeout=20)
-        bad = rb.out != r.out or ("diagnostic" in ww.get("clause", "") and "config.cfg:2" not in r.err.decode("latin-1"))
+        nlines = len(open(os.path.join(path, "config.cfg"), "rb").read().rstrip(b"\n").split(b"\n"))
+        bad = rb.out != r.out or ("diagnostic" in ww.get("clause", "") and ("config.cfg:%d" % nlines) not in r.err.decode("latin-1"))
     print("re-evaluated:", "violated" if bad else "holds")
     return 1 if bad else 0
